@@ -6,6 +6,7 @@ import Katib.Drv.C19
 import Katib.Drv.C15
 import Katib.Drv.C08S
 import Katib.Drv.C07J
+import Katib.Drv.C06J
 import Katib.Drv.C04D
 import Katib.Drv.C10
 import Katib.Drv.C17
@@ -29,6 +30,7 @@ def handle (toks : List String) : String :=
   | "C15" :: r => handleC15 r
   | "C08S" :: r => handleC08S r
   | "C07J" :: r => handleC07J r
+  | "C06J" :: r => handleC06J r
   | "C04D" :: r => handleC04D r
   | "C10" :: r => handleC10 r
   | "C17" :: r => handleC17 r
@@ -51,6 +53,7 @@ def handleOracle (toks out : List String) : String :=
   | "C15" :: r => oracleLineC15 r out
   | "C08S" :: r => oracleLineC08S r out
   | "C07J" :: r => oracleLineC07J r out
+  | "C06J" :: r => oracleLineC06J r out
   | "C04D" :: r => oracleLineC04D r out
   | "C10" :: r => oracleLineC10 r out
   | "C17" :: r => oracleLineC17 r out
